@@ -45,7 +45,25 @@ def mk_ann(mod, limit=None, order_by=None, ground=False, noinject=False, with_=F
 
 LIMITS = [None, [0], [1], [2], [7], [-1], [1000000], [1, 2], [], ['x'], [None]]
 ORDERS = [None, [], ['a'], ['a', 'DESC'], ['a', 'b'], ['a', 'DESC', 'b'], ['a', 'b', 'DESC'],
-          ['a', 'DESC', 'b', 'DESC'], ['col0', 'a', 'DESC', 'logica_value'], ['a', 'ASC']]
+          ['a', 'DESC', 'b', 'DESC'], ['col0', 'a', 'DESC', 'logica_value'], ['a', 'ASC'],
+          ['k%d' % i for i in range(10)], ['k%d' % i for i in range(11)] + ['DESC'],
+          [x for i in range(12) for x in ('c%d' % i, 'DESC')]]
+
+
+def gen_fvl(tier, mod):
+  """Field-value maps: positions 1..n for n up to 23 (two-digit keys), with and without the rule text,
+  with one position missing, and with a named (non-positional) argument."""
+  for n in list(range(0, 13)) + [23]:
+    full = {str(i + 1): 'v%d' % (i + 1) for i in range(n)}
+    for rt in (False, True):
+      d = dict(full, __rule_text='@A(...)') if rt else dict(full)
+      yield {'args': [d], 'show': {'positions': n, 'rule_text': rt}}
+      for miss in sorted({1, 2, n // 2, n - 1, n}):
+        if 1 <= miss <= n:
+          d2 = dict(d)
+          del d2[str(miss)]
+          yield {'args': [d2], 'show': {'positions': n, 'missing': miss, 'rule_text': rt}}
+      yield {'args': [dict(d, name='x')], 'show': {'positions': n, 'named': 'name', 'rule_text': rt}}
 
 
 def gen_limit(tier, mod):
@@ -74,9 +92,28 @@ def ob_item(ob, k):
 
 
 UNITS = [
-  # FieldValuesAsList: assumed (external) contract; its body uses copy.deepcopy + del on a dict.
-  unit(F, 'FieldValuesAsList', external=True, pure=True, params=['field_values'],
-       types={'field_values': 'dict[str,val]'}, returns='opt[list[val]]', ensures=[]),
+  # FieldValuesAsList: the positional values in numeric order of position, for every number of
+  # positions; None exactly when some position 1..n is missing (n = entries other than the rule text).
+  unit(F, 'FieldValuesAsList', pure=True, props=['C18'], params=['field_values'],
+       types={'field_values': 'dict[str,val]'}, locals={'field_values_list': 'list[val]'},
+       returns='opt[list[val]]',
+       ensures=["implies(result is not None, len(result) == npos(old(field_values)))",
+                "implies(result is not None, "
+                "all(result[j] == old(field_values)[str(j + 1)] for j in range(len(result))))",
+                "implies(result is not None, "
+                "all(str(j + 1) in old(field_values) for j in range(npos(old(field_values)))))",
+                "implies(result is None, "
+                "any(str(j + 1) not in old(field_values) for j in range(npos(old(field_values)))))"],
+       spec_funcs={'npos': (['d'], "len(d) - (1 if '__rule_text' in d else 0)")},
+       native_env={'npos': lambda d: len(d) - (1 if '__rule_text' in d else 0)},
+       loops={0: {'inv': ["len(field_values_list) == _i0",
+                          "all(field_values_list[j] == field_values[str(j + 1)] for j in range(_i0))",
+                          "all(str(j + 1) in field_values for j in range(_i0))"]}},
+       # str on integers is uninterpreted in the VCs; the one fact about it that the argument needs
+       # (a decimal rendering is never the reserved key) is stated as an axiom
+       opaque_int_str=True,
+       axioms=["all(str(k + 1) != '__rule_text' for k in range(len(field_values)))"],
+       native=gen_fvl),
   unit(F, 'Annotations.Ground', external=True, pure=True, params=['predicate_name'],
        types={'predicate_name': 'str'}, fields=ANN, returns='opt[GroundT]',
        requires=["'@Ground' in self.annotations"],
